@@ -180,9 +180,11 @@ fn replay(id: &str, path: &str) -> ExitCode {
     }
     let check = checks::find(id).unwrap();
     if let Some(prep) = check.prepare_replay {
-        if let Err(e) = prep(&v) {
-            println!("INCONCLUSIVE property={} {}", id, e);
-            return ExitCode::from(2);
+        if v["case"].get("decl").is_some() {
+            if let Err(e) = prep(&v) {
+                println!("INCONCLUSIVE property={} {}", id, e);
+                return ExitCode::from(2);
+            }
         }
     }
     match run_one(Path::new(path)) {
